@@ -2,6 +2,12 @@ import Vgw.Model.Gw.Step
 namespace Vgw.Model.Gw
 open Vgw
 
+@[simp] theorem vstatus_beq (a b : VStatus) : (a == b) = decide (a = b) := by
+  cases a <;> cases b <;> rfl
+
+@[simp] theorem vstatus_bne (a b : VStatus) : (a != b) = !decide (a = b) := by
+  cases a <;> cases b <;> rfl
+
 theorem beq_bytes_refl (a : Bytes) : (a == a) = true := by simp
 
 theorem find_insertBucket (bs : List Bucket) (b : Bucket) :
@@ -21,6 +27,9 @@ theorem find_insertBucket (bs : List Bucket) (b : Bucket) :
 
 theorem findBucket_setBucket (s : State) (b : Bucket) : findBucket (setBucket s b) b.name = some b := by
   unfold findBucket setBucket; exact find_insertBucket s.buckets b
+
+theorem find_set (s : State) (x : Bucket) (b : Bytes) (h : x.name = b) : findBucket (setBucket s x) b = some x :=
+  h ▸ findBucket_setBucket s x
 
 theorem find_insertBucket_ne (bs : List Bucket) (b : Bucket) (n : Bytes) (h : (b.name == n) = false) :
     (insertBucket bs b).find? (·.name == n) = bs.find? (·.name == n) := by
@@ -60,6 +69,80 @@ theorem kvFind_kvInsert {α} (m : List (Bytes × α)) (k : Bytes) (v : α) : kvF
       · have : (k' == k) = false := by simpa using hne
         simp only [kvFind, List.find?_cons, this]
         simpa [kvFind] using ih
+
+theorem versions_setVersions (bk : Bucket) (k : Bytes) (vs : List Ver) (h : vs ≠ []) :
+    (bk.setVersions k vs).versions k = vs := by
+  unfold Bucket.setVersions Bucket.versions
+  have : vs.isEmpty = false := by cases vs <;> simp_all
+  simp [this, kvFind_kvInsert]
+
+theorem setVersions_name (bk : Bucket) (k : Bytes) (vs : List Ver) : (bk.setVersions k vs).name = bk.name := by
+  unfold Bucket.setVersions; split <;> rfl
+
+theorem setVersions_uploads (bk : Bucket) (k : Bytes) (vs : List Ver) : (bk.setVersions k vs).uploads = bk.uploads := by
+  unfold Bucket.setVersions; split <;> rfl
+
+theorem guarded_some_eq (c : Option String) (s : State) (k : Unit → State × Resp) (e : String) (h : c = some e) :
+    guarded c s k = (s, errR e) := by subst h; rfl
+
+theorem guarded_none_eq (c : Option String) (s : State) (k : Unit → State × Resp) (h : c = none) :
+    guarded c s k = k () := by subst h; rfl
+
+theorem guarded_cases (c : Option String) (s : State) (k : Unit → State × Resp) (P : State × Resp → Prop)
+    (h1 : ∀ e, c = some e → P (s, errR e)) (h2 : c = none → P (k ())) : P (guarded c s k) := by
+  cases c with
+  | some e => exact h1 e rfl
+  | none => exact h2 rfl
+
+theorem find_eq_head_dropWhile {α} (p : α → Bool) (l : List α) :
+    l.find? p = (l.dropWhile (fun x => !p x)).head? := by
+  induction l with
+  | nil => rfl
+  | cons a as ih =>
+    simp only [List.find?_cons, List.dropWhile_cons]
+    cases p a <;> simp [ih]
+
+/-- the version the per-version lock operations address -/
+def target (bk : Bucket) (k vid : Bytes) : Option Ver :=
+  if vid.isEmpty then (bk.versions k).head? else findVer (bk.versions k) vid
+
+/-- if a per-version lock operation succeeds, its continuation ran on the addressed version -/
+theorem withLockedVersion_ok (cfg : Cfg) (s : State) (bk : Bucket) (k vid : Bytes)
+    (f : Ver → List Ver → List Ver → State × Resp)
+    (hok : (withLockedVersion cfg s bk k vid f).2.code = "") :
+    ∃ v rest pre, target bk k vid = some v ∧ (withLockedVersion cfg s bk k vid f) = f v rest pre := by
+  unfold withLockedVersion at hok ⊢
+  simp only at hok ⊢
+  split at hok
+  · exact absurd hok (errR_code_ne _)
+  · split at hok
+    · exact absurd hok (errR_code_ne _)
+    · rename_i h1 h2
+      simp only [h1, h2, if_false]
+      split at hok
+      · rename_i hvid
+        simp only [hvid, if_true]
+        cases hvs : bk.versions k with
+        | nil => simp [hvs] at h1
+        | cons v rest =>
+          refine ⟨v, rest, [], ?_, rfl⟩
+          simp [target, hvid, hvs]
+      · rename_i hvid
+        simp only [hvid, if_false]
+        split at hok
+        · exact absurd hok (errR_code_ne _)
+        · rename_i hcv
+          simp only [hcv, if_false]
+          cases hdw : (bk.versions k).dropWhile (fun x => x.vid != reqVid vid) with
+          | nil => simp only [hdw] at hok; exact absurd hok (errR_code_ne _)
+          | cons v rest =>
+            refine ⟨v, rest, _, ?_, rfl⟩
+            have hv : vid.isEmpty = false := by simpa using hvid
+            simp only [target, hv, Bool.false_eq_true, if_false, findVer]
+            rw [find_eq_head_dropWhile]
+            have h3 : (fun (x : Ver) => !(x.vid == reqVid vid)) = (fun x => x.vid != reqVid vid) := by
+              funext x; rfl
+            rw [h3, hdw]; rfl
 
 theorem findBucket_name (s : State) (b : Bytes) (bk : Bucket) (h : findBucket s b = some bk) : bk.name = b := by
   unfold findBucket at h
